@@ -72,6 +72,7 @@ def project_session(cmd, obs, si, walk):
               "blocks": [{"count": b["count"], "size": b["size"], "sync": b["sync"], "raw": b.get("raw", []),
                           "trailer": b.get("trailer", []), "deframe_ok": "deframe_err" not in b} for b in new],
               "aligned": cur in ends and (cur != len(sink) or walk["stop"] == len(sink))}
+        ev["hs"] = st["hs"] if isinstance(st.get("hs"), list) else [-1]      # hook state of the writer after the call (absent: writer closed / hooks off)
         if op["op"] == "serialize":
             ev["pres"] = op["pres"]
         if op["op"] == "push":
